@@ -5,7 +5,7 @@ from oracle_util import *  # noqa
 from protocol import from_real, KEY_IDX
 
 ID = "C09"
-LEAN_MODULE = ["SCoda.Props.C09", "SCoda.Props.Purity", "SCoda.Props.C16b", "SCoda.Props.Strong589", "SCoda.Props.ElemTie", "SCoda.Props.StaticTie", "SCoda.Props.RelTie2"]
+LEAN_MODULE = ["SCoda.Props.C09", "SCoda.Props.Purity", "SCoda.Props.C16b", "SCoda.Props.Strong589", "SCoda.Props.ElemTie", "SCoda.Props.StaticTie", "SCoda.Props.RelTie2", "SCoda.Props.C09n"]
 LEVEL = "proof"
 CLAUSES = [
     ("every track gets the same number of bars (one list per input track, all of one positive length); the loop terminates for positive bar lengths",
@@ -51,6 +51,8 @@ CLAUSES = [
      "before the call (purity typing over regenerated facts); the bars are fresh (C16b); observed on the real objects by the oracle's `inputs` "
      "clause from five wrapper states",
      ["SCoda.Purity.purity_cert_closed", "SCoda.Purity.routes_write_nothing_shared", "SCoda.Purity.purity_routes_seen", "SCoda.C16.derivations_return_fresh"]),
+    ('re-quantisation off, D18b carve-out exact at tick 0 (audit round 2 F5): the bars reproduce the sounding set exactly for every track with no zero-length note on a bar start AFTER tick 0 of the grid (a zero-length note at tick 0 is allowed: tick 0 is a bar start but no cut point; the output-level bar-LINE predicate never excluded it)',
+     ["SCoda.C09n.sound_exact_boundary'", "SCoda.C09n.sound_exact_barlines'", "SCoda.C09n.noZeroOnBarLine_iff", "SCoda.C09n.noZeroOnGrid'_of_B"]),
 ]
 RULE = ("multi-track pieces (1-3 tracks, 1-5 bars, 9 signatures with boundary-aligned changes, key changes on bar lines, "
         "tracks of unequal length, empty tracks, notes crossing bar lines) x re-quantisation on/off; "
